@@ -104,6 +104,7 @@ var c14Groups = []map[string]any{c14Group("-", "a", "b"), c14Group("-", "a", "b"
 type c14Ticker struct {
 	calls  int
 	failAt int // 0 = never
+	panics bool // the failing call panics instead of returning an error (the caller of Execute* recovers)
 }
 
 var errTick = errors.New("tick failed deliberately")
@@ -113,6 +114,9 @@ func (t *c14Ticker) ctx() pongo2.Context {
 		"tick": func(i int) (string, error) {
 			t.calls++
 			if t.failAt > 0 && t.calls == t.failAt {
+				if t.panics {
+					panic("c14: tick panics deliberately")
+				}
 				return "", errTick
 			}
 			return fmt.Sprintf("t%d;", i), nil
@@ -360,6 +364,108 @@ func c14Run(c *C) {
 		for which := 1; which < 4; which++ {
 			if res[which].err != res[0].err {
 				c.Fail("variants-fail-differently", D{"files": p.files, "failing_call": k, "Execute": res[0].err, c14Entry[which]: res[which].err})
+				return
+			}
+		}
+	}
+	// fault sweep 1b: the k-th evaluated output node PANICS (a context function of the application) and the caller of
+	// ExecuteWriter recovers, like net/http does for its handlers: the execution failed, so nothing has reached the
+	// caller's writer - whatever kind of writer it is (*bytes.Buffer and *strings.Builder holding earlier content, a plain
+	// recording writer)
+	if M > 0 {
+		for _, k := range []int{1, M, 1 + c.R.Intn(M)} {
+			for wk := 0; wk < 3; wk++ {
+				set, _ := newSet(p.files)
+				tpl, err := set.FromFile("/main.tpl")
+				if err != nil {
+					break
+				}
+				var bb bytes.Buffer
+				var sb strings.Builder
+				rw := &recWriter{}
+				bb.WriteString("PRE|")
+				sb.WriteString("PRE|")
+				var w io.Writer = []io.Writer{&bb, &sb, rw}[wk]
+				tk := &c14Ticker{failAt: k, panics: true}
+				panicked := false
+				var pe error
+				func() {
+					defer func() {
+						if recover() != nil {
+							panicked = true
+						}
+					}()
+					pe = tpl.ExecuteWriter(tk.ctx(), w)
+				}()
+				c.Eval(1)
+				received := []string{bb.String(), sb.String(), "PRE|" + rw.buf.String()}[wk]
+				if (!panicked && pe == nil) || received != "PRE|" {
+					c.Fail("ExecuteWriter-wrote-before-failing", D{"files": p.files, "panicking_call": k, "calls_in_a_good_run": M, "writer": []string{"*bytes.Buffer holding \"PRE|\"", "*strings.Builder holding \"PRE|\"", "recording writer"}[wk],
+						"writer_content_afterwards": q(truncStr(received, 400)), "panic_reached_the_caller": panicked, "why": "a context function panicked in the middle of the execution and the caller recovered: the execution failed, ExecuteWriter must not have written anything"})
+					return
+				}
+				// and a good run into the same kind of writer appends exactly F
+				bb.Reset()
+				bb.WriteString("PRE|")
+				if wk == 0 {
+					e := tpl.ExecuteWriter((&c14Ticker{}).ctx(), &bb)
+					c.Eval(1)
+					if e != nil || bb.String() != "PRE|"+F {
+						c.Fail("variants-disagree", D{"files": p.files, "writer": "*bytes.Buffer holding \"PRE|\"", "received": q(truncStr(bb.String(), 400)), "expected": q(truncStr("PRE|"+F, 400)), "error": errStr(e)})
+						return
+					}
+				}
+			}
+		}
+		c.Cover("panic_recovered_by_the_caller")
+	}
+	// templates WITHOUT any tag or variable (plain text, a verbatim block, a comment, nothing at all) are templates like
+	// any other: the four entry points agree on them, also about a context that must be refused
+	for _, plain := range []string{"just text, no tags at all\n", "", "{% verbatim %}{{ not evaluated }}{% endverbatim %}", "text {# a comment #} more text", c06RandText(c.R, 60)} {
+		if hasOpener(plain) && !strings.Contains(plain, "verbatim") && !strings.Contains(plain, "{#") {
+			continue
+		}
+		for variant := 0; variant < 3; variant++ {
+			var outs, errs [4]string
+			for which := 0; which < 4; which++ {
+				pset, _ := newSet(map[string]string{"/lib.tpl": "{% macro clash() export %}m{% endmacro %}"})
+				var ctx pongo2.Context
+				switch variant {
+				case 1:
+					ctx = pongo2.Context{"not-an-identifier": 1}
+				case 2:
+					pset.Globals["bad key"] = 1
+					ctx = pongo2.Context{"fine": 1} // (the engine checks the merged keys only when the caller passes a context)
+				}
+				ptpl, perr := pset.FromString(plain)
+				if perr != nil {
+					break
+				}
+				w := &recWriter{}
+				var e error
+				switch which {
+				case 0:
+					outs[which], e = ptpl.Execute(ctx)
+				case 1:
+					var b []byte
+					b, e = ptpl.ExecuteBytes(ctx)
+					outs[which] = string(b)
+				case 2:
+					e = ptpl.ExecuteWriter(ctx, w)
+					outs[which] = w.buf.String()
+				default:
+					e = ptpl.ExecuteWriterUnbuffered(ctx, w)
+					outs[which] = w.buf.String()
+				}
+				c.Eval(1)
+				errs[which] = errStr(e)
+				if variant > 0 && (e == nil || outs[which] != "") {
+					c.Fail("invalid-context-accepted", D{"source": q(plain), "entry": c14Entry[which], "variant": []string{"", "context key \"not-an-identifier\"", "globals key \"bad key\""}[variant], "output": q(outs[which]), "error": errStr(e)})
+					return
+				}
+			}
+			if errs[1] != errs[0] || errs[2] != errs[0] || errs[3] != errs[0] || outs[1] != outs[0] || outs[2] != outs[0] || outs[3] != outs[0] {
+				c.Fail("variants-disagree", D{"source": q(plain), "outputs": outs, "errors": errs})
 				return
 			}
 		}
